@@ -1,5 +1,5 @@
 (* C05 — Bitcoin/testnet3: every output script gets the reference type and address. Pinned statements only: each theorem is closed by `exact` of a lemma proved in theories/. *)
-From RBP Require Import Bytes Hashes Base58 Bech32 Utf8 ScriptCustom CustomTop ScriptCustomP ScriptBtc ScriptBtcP.
+From RBP Require Import Bytes Hashes Codec Base58 Bech32 Segwit Utf8 ScriptCustom CustomTop ScriptCustomP ScriptBtc ScriptBtcP ScriptBtcSpec Wire Block Index Model OpReturnP.
 From RBP Require Drive Merkle Utxo Stats OutProto Reader Published Misc.
 
 Theorem C05_p2pkh_shape :
@@ -18,17 +18,117 @@ Theorem C05_templates_exclusive :
   forall l : bytes, (is_p2pkh l = true -> is_p2sh l = false /\ p2pk_key l = None /\ witness_version l = None) /\ (is_p2sh l = true -> p2pk_key l = None /\ witness_version l = None) /\ (p2pk_key l <> None -> witness_version l = None).
 Proof. exact ScriptBtcP.templates_exclusive. Qed.
 
+Theorem C05_p2pkh_verdict :
+  forall (n : net) (h : list N), length h = 20%nat -> eval_btc n ([118; 169; 20] ++ h ++ [136; 172]) = (BP2PKH, Some (hash160_to_address (pkh_ver n) h)).
+Proof. exact p2pkh_verdict. Qed.
+
+Theorem C05_p2sh_verdict :
+  forall (n : net) (h : list N), length h = 20%nat -> eval_btc n ([169; 20] ++ h ++ [135]) = (BP2SH, Some (hash160_to_address (sh_ver n) h)).
+Proof. exact p2sh_verdict. Qed.
+
+Theorem C05_p2pk_verdict :
+  forall (n : net) (k : list N), length k = 33%nat \/ length k = 65%nat -> eval_btc n ([N.of_nat (length k)] ++ k ++ [172]) = (BP2PK, Some (hash160_to_address (pkh_ver n) (hash160 k))).
+Proof. exact p2pk_verdict. Qed.
+
+Theorem C05_witness_verdict :
+  forall (net : net) (v : N) (prog : list N), v <= 16 -> (2 <= length prog <= 40)%nat -> eval_btc net ([wit_opcode v; N.of_nat (length prog)] ++ prog) = (wit_type v (length prog), if wit_has_address v (length prog) then Some (segwit_addr (hrp net) v prog) else None).
+Proof. exact witness_verdict. Qed.
+
+Theorem C05_unspendable_verdict :
+  forall (n : net) (c : N) (r : list N), c <> 106 -> return_or_illegal c = true -> eval_btc n (c :: r) = (BUnspendable, None).
+Proof. exact unspendable_verdict. Qed.
+
+Theorem C05_opcode_table_sweep :
+  forallb (fun c : N => eqb (return_or_illegal c) (existsb (N.eqb c) unspendable_first_bytes)) (map N.of_nat (seq 0 256)) = true.
+Proof. exact opcode_table_sweep. Qed.
+
+Theorem C05_opreturn_verdict :
+  forall (n : net) (f : pform) (d : bytes), pfits f d -> eval_btc n (106 :: enc_push f d) = (BOpReturn (if utf8_valid d then d else []), None).
+Proof. exact eval_btc_opreturn. Qed.
+
+Theorem C05_opreturn_iff_first_byte :
+  forall (n : net) (l : bytes), (exists d : bytes, fst (eval_btc n l) = BOpReturn d) <-> (exists r : list N, l = 106 :: r).
+Proof. exact eval_btc_opreturn_iff. Qed.
+
+Theorem C05_empty_script :
+  forall n : net, eval_btc n [] = (BNotRecognised, None).
+Proof. exact empty_script_verdict. Qed.
+
+Theorem C05_network_prefixes :
+  (pkh_ver mainnet, sh_ver mainnet, hrp mainnet) = (0, 5, [98; 99]) /\ (pkh_ver testnet, sh_ver testnet, hrp testnet) = (111, 196, [116; 98]).
+Proof. exact network_prefixes. Qed.
+
+Theorem C05_p2pkh_address_decodes :
+  forall (n : net) (h : bytes), pkh_ver n < 256 -> wfb h = true -> length h = 20%nat -> exists a : list N, eval_btc n ([118; 169; 20] ++ h ++ [136; 172]) = (BP2PKH, Some a) /\ b58check_decode a = Some (pkh_ver n :: h).
+Proof. exact p2pkh_address_decodes. Qed.
+
+Theorem C05_p2sh_address_decodes :
+  forall (n : net) (h : bytes), sh_ver n < 256 -> wfb h = true -> length h = 20%nat -> exists a : list N, eval_btc n ([169; 20] ++ h ++ [135]) = (BP2SH, Some a) /\ b58check_decode a = Some (sh_ver n :: h).
+Proof. exact p2sh_address_decodes. Qed.
+
+Theorem C05_p2pk_address_decodes :
+  forall (n : net) (k : list N), pkh_ver n < 256 -> length k = 33%nat \/ length k = 65%nat -> exists a : list N, eval_btc n ([N.of_nat (length k)] ++ k ++ [172]) = (BP2PK, Some a) /\ b58check_decode a = Some (pkh_ver n :: hash160 k).
+Proof. exact p2pk_address_decodes. Qed.
+
+Theorem C05_witness_address_decodes :
+  forall (net : net) (v : N) (prog : list N), v <= 16 -> (2 <= length prog <= 40)%nat -> wfb prog = true -> wit_has_address v (length prog) = true -> exists a : list N, snd (eval_btc net ([wit_opcode v; N.of_nat (length prog)] ++ prog)) = Some a /\ segwit_decode (hrp net) a = Some (v, prog).
+Proof. exact witness_address_decodes. Qed.
+
+Theorem C05_base58check_roundtrip :
+  forall p : bytes, wfb p = true -> b58check_decode (b58check_encode p) = Some p.
+Proof. exact b58check_roundtrip. Qed.
+
+Theorem C05_segwit_roundtrip :
+  forall (hrp : list N) (ver : N) (prog : bytes), ver < 32 -> wfb prog = true -> segwit_decode hrp (segwit_addr hrp ver prog) = Some (ver, prog).
+Proof. exact segwit_roundtrip. Qed.
+
+Theorem C05_regroup_roundtrip :
+  forall prog : bytes, wfb prog = true -> ungroup (regroup prog) = Some prog.
+Proof. exact ungroup_regroup. Qed.
+
 Theorem C05_bech32_checksum_valid :
   forall (const : N) (vs : list N), N.shiftr const 30 = 0 -> polymod (vs ++ checksum const vs) = const.
 Proof. exact checksum_valid. Qed.
+
+Theorem C05_segwit_checksum_valid :
+  forall (hrp : list N) (ver : N) (prog : bytes), polymod (hrp_expand hrp ++ (ver :: regroup prog) ++ checksum (bconst ver) (hrp_expand hrp ++ ver :: regroup prog)) = bconst ver.
+Proof. exact segwit_checksum_valid. Qed.
 
 Theorem C05_b58_digits_roundtrip :
   forall bs : bytes, wfb bs = true -> b58_undigits (b58_digits bs) = bs.
 Proof. exact b58_digits_roundtrip. Qed.
 
+Theorem C05_sha256_output_is_bytes :
+  forall msg : list N, wfb (sha256 msg) = true.
+Proof. exact sha256_wfb. Qed.
+
+Theorem C05_hash160_output_is_bytes :
+  forall msg : list N, wfb (hash160 msg) = true.
+Proof. exact hash160_wfb. Qed.
+
 Print Assumptions C05_p2pkh_shape.
 Print Assumptions C05_p2sh_shape.
 Print Assumptions C05_p2pk_shape.
 Print Assumptions C05_templates_exclusive.
+Print Assumptions C05_p2pkh_verdict.
+Print Assumptions C05_p2sh_verdict.
+Print Assumptions C05_p2pk_verdict.
+Print Assumptions C05_witness_verdict.
+Print Assumptions C05_unspendable_verdict.
+Print Assumptions C05_opcode_table_sweep.
+Print Assumptions C05_opreturn_verdict.
+Print Assumptions C05_opreturn_iff_first_byte.
+Print Assumptions C05_empty_script.
+Print Assumptions C05_network_prefixes.
+Print Assumptions C05_p2pkh_address_decodes.
+Print Assumptions C05_p2sh_address_decodes.
+Print Assumptions C05_p2pk_address_decodes.
+Print Assumptions C05_witness_address_decodes.
+Print Assumptions C05_base58check_roundtrip.
+Print Assumptions C05_segwit_roundtrip.
+Print Assumptions C05_regroup_roundtrip.
 Print Assumptions C05_bech32_checksum_valid.
+Print Assumptions C05_segwit_checksum_valid.
 Print Assumptions C05_b58_digits_roundtrip.
+Print Assumptions C05_sha256_output_is_bytes.
+Print Assumptions C05_hash160_output_is_bytes.
